@@ -84,6 +84,7 @@ func verifHarnessC01() {
 	verifAssert(err == nil, "C01.open-err")
 	m := newVModel(len(kp.keys))
 	ops := vOpsFromMask(verifParam("ops"))
+	vPrefill(db, kp, m, "C01")
 	for step := 0; step < K; step++ {
 		db = vStep(db, opts, kp, m, ops, "C01")
 		verifSameMapping(db, kp, m, "C01")
